@@ -409,6 +409,12 @@ func (state *RuntimeState) GetUsers() ([]string, bool, error) {
 			time.Sleep(10 * time.Millisecond)
 		}
 		names, dbErr := gatherUsers(stmt)
+		if dbErr != nil {
+			// Like a failed Prepare: the primary is not answering, let the
+			// caller run into its deadline so that the cache answers.
+			logger.Printf("Error reading users from primary DB: %s", dbErr)
+			return
+		}
 		ch <- getUsersData{Names: names, Err: dbErr}
 		close(ch)
 	}()
@@ -483,6 +489,13 @@ func (state *RuntimeState) LoadUserProfile(username string) (
 		}
 		profileMessage.Err = stmt.QueryRow(username).Scan(
 			&profileMessage.ProfileBytes)
+		if profileMessage.Err != nil && profileMessage.Err != sql.ErrNoRows {
+			// Like a failed Prepare: the primary is not answering, let the
+			// caller run into its deadline so that the cache answers.
+			logger.Printf("Error reading profile from primary DB: %s",
+				profileMessage.Err)
+			return
+		}
 		ch <- profileMessage
 	}(username)
 	var profileBytes []byte
@@ -681,6 +694,14 @@ func (state *RuntimeState) GetSigned(username string,
 		}
 		signedDataMessage.Err = stmt.QueryRow(username, dataType,
 			time.Now().Unix()).Scan(&signedDataMessage.JWSData)
+		if signedDataMessage.Err != nil &&
+			signedDataMessage.Err != sql.ErrNoRows {
+			// Like a failed Prepare: the primary is not answering, let the
+			// caller run into its deadline so that the cache answers.
+			logger.Printf("Error reading signed data from primary DB: %s",
+				signedDataMessage.Err)
+			return
+		}
 		ch <- signedDataMessage
 	}(username, dataType)
 	var jwsData string
